@@ -14,6 +14,8 @@ import ast
 import os
 import sys
 
+sys.path.insert(0, os.path.dirname(os.path.abspath(__file__)))
+
 REPO = os.environ.get('VERIF_REPO', '/repo')
 OUT = os.environ.get('VERIF_GEN_OUT') or os.path.join(os.path.dirname(os.path.abspath(__file__)), '..', 'coq', 'gen', 'Gen.v')
 
@@ -506,6 +508,22 @@ def main():
         with open(out, 'w') as f:
             f.write(text)
         print('gen_constants: wrote', out)
+    # statements of small loops translated into Gallina (tools/gen_loops.py) -> GenLoops.v beside Gen.v
+    import gen_loops
+    try:
+        ltext = gen_loops.generate(parse)
+    except (gen_loops.Shape, Shape, SyntaxError, KeyError, IndexError, AttributeError, TypeError, ValueError, OSError) as e:
+        sys.stderr.write('gen_loops: FAIL-CLOSED: %s: %s\n' % (type(e).__name__, e))
+        return 2
+    lout = os.path.join(os.path.dirname(out), 'GenLoops.v')
+    lold = None
+    if os.path.exists(lout):
+        with open(lout) as f:
+            lold = f.read()
+    if lold != ltext:
+        with open(lout, 'w') as f:
+            f.write(ltext)
+        print('gen_constants: wrote', lout)
     return 0
 
 
